@@ -581,4 +581,265 @@ example : ∃ s, run empty [.ins 44 47 45, .ins 47 49 45, .ins 1 2 49, .ins 1 3 
     findRefs s 16 1 (some (44, false)) = some none := by
   exact ⟨_, rfl, by decide, by decide, by decide⟩
 
+/-! ### The subtype walk returns when the HasSubtype references have no cycle -/
+
+/-- more fuel never changes an answer -/
+theorem subtypeSearch_mono (s : Refs) (sub : Nat) : ∀ fuel stack r k,
+    subtypeSearch s sub fuel stack = some r → subtypeSearch s sub (fuel + k) stack = some r := by
+  intro fuel
+  induction fuel with
+  | zero => intro stack r k h; simp [subtypeSearch] at h
+  | succ fuel ih =>
+    intro stack r k h
+    rw [show fuel + 1 + k = (fuel + k) + 1 by omega]
+    cases stack with
+    | nil => simpa [subtypeSearch] using h
+    | cons cur rest =>
+      unfold subtypeSearch at h ⊢
+      split
+      · rename_i he; simpa [he] using h
+      · rename_i hne
+        rw [if_neg hne] at h
+        cases hg : s.fwd.get cur with
+        | none => rw [hg] at h; exact ih _ _ _ h
+        | some l =>
+          rw [hg] at h
+          simp only [] at h ⊢
+          split
+          · rename_i hc; rw [if_pos hc] at h; exact h
+          · rename_i hc; rw [if_neg hc] at h; exact ih _ _ _ h
+
+/-- the walk over `a ++ b` is the walk over `a` followed, if `a` does not decide, by the walk over `b` -/
+theorem subtypeSearch_append (s : Refs) (sub : Nat) : ∀ fuel a b r,
+    subtypeSearch s sub fuel a = some r →
+      (r = true → ∀ g, subtypeSearch s sub (fuel + g) (a ++ b) = some true) ∧
+      (r = false → ∀ g r', subtypeSearch s sub g b = some r' →
+        subtypeSearch s sub (fuel + g) (a ++ b) = some r') := by
+  intro fuel
+  induction fuel with
+  | zero => intro a b r h; simp [subtypeSearch] at h
+  | succ fuel ih =>
+    intro a b r h
+    cases a with
+    | nil =>
+      simp only [subtypeSearch, Option.some.injEq] at h
+      subst h
+      refine ⟨by simp, fun _ g r' hb => ?_⟩
+      rw [List.nil_append, show fuel + 1 + g = g + (fuel + 1) by omega]
+      exact subtypeSearch_mono s sub g b r' _ hb
+    | cons cur rest =>
+      have e : ∀ g, fuel + 1 + g = (fuel + g) + 1 := by intro g; omega
+      unfold subtypeSearch at h
+      split at h
+      · rename_i he
+        cases h
+        refine ⟨fun _ g => ?_, by simp⟩
+        rw [e, List.cons_append]; unfold subtypeSearch; simp [he]
+      · rename_i hne
+        cases hg : s.fwd.get cur with
+        | none =>
+          rw [hg] at h
+          obtain ⟨h1, h2⟩ := ih rest b r h
+          constructor
+          · intro hr g; rw [e, List.cons_append]; unfold subtypeSearch; simp only [hne, if_false, hg]
+            exact h1 hr g
+          · intro hr g r' hb; rw [e, List.cons_append]; unfold subtypeSearch
+            simp only [hne, if_false, hg]; exact h2 hr g r' hb
+        | some l =>
+          rw [hg] at h
+          simp only [] at h
+          split at h
+          · rename_i hc
+            cases h
+            refine ⟨fun _ g => ?_, by simp⟩
+            rw [e, List.cons_append]; unfold subtypeSearch; simp only [hne, if_false, hg]; rw [if_pos hc]
+          · rename_i hc
+            obtain ⟨h1, h2⟩ := ih _ b r h
+            constructor
+            · intro hr g; rw [e, List.cons_append]; unfold subtypeSearch
+              simp only [hne, if_false, hg, hc]
+              rw [← List.append_assoc]; exact h1 hr g
+            · intro hr g r' hb; rw [e, List.cons_append]; unfold subtypeSearch
+              simp only [hne, if_false, hg, hc]
+              rw [← List.append_assoc]; exact h2 hr g r' hb
+
+/-- the HasSubtype references have no cycle: some rank goes down along each of them -/
+def Acyclic (s : Refs) : Prop := ∃ rk : Nat → Nat, ∀ a b, R s a hasSubtype b → rk b < rk a
+
+theorem subtypeSearch_terminates_ranked (s : Refs) (sub : Nat) (rk : Nat → Nat)
+    (hrk : ∀ a b, R s a hasSubtype b → rk b < rk a) :
+    ∀ k stack, (∀ c ∈ stack, rk c < k) → ∃ fuel r, subtypeSearch s sub fuel stack = some r := by
+  intro k
+  induction k with
+  | zero =>
+    intro stack h
+    cases stack with
+    | nil => exact ⟨1, false, rfl⟩
+    | cons c _ => exact absurd (h c List.mem_cons_self) (Nat.not_lt_zero _)
+  | succ k ih =>
+    intro stack
+    induction stack with
+    | nil => intro _; exact ⟨1, false, rfl⟩
+    | cons cur rest ihs =>
+      intro h
+      obtain ⟨f2, r2, h2⟩ := ihs (fun c hc => h c (List.mem_cons_of_mem _ hc))
+      by_cases he : sub = cur
+      · exact ⟨1, true, by simp [subtypeSearch, he]⟩
+      · cases hg : s.fwd.get cur with
+        | none => exact ⟨f2 + 1, r2, by unfold subtypeSearch; simp only [he, if_false, hg]; exact h2⟩
+        | some l =>
+          by_cases hc : ((l.filter (fun r => r.1 == hasSubtype)).map (fun r => r.2)).contains sub = true
+          · exact ⟨1, true, by unfold subtypeSearch; simp only [he, if_false, hg]; rw [if_pos hc]⟩
+          · have hlow : ∀ c ∈ ((l.filter (fun r => r.1 == hasSubtype)).map (fun r => r.2)).reverse, rk c < k := by
+              intro c hcm
+              have hcm' : c ∈ (l.filter (fun r => r.1 == hasSubtype)).map (fun r => r.2) := by simpa using hcm
+              have := hrk cur c ((mem_subtypes s cur c l hg).1 hcm')
+              have := h cur List.mem_cons_self
+              omega
+            obtain ⟨f1, r1, h1⟩ := ih _ hlow
+            obtain ⟨a1, a2⟩ := subtypeSearch_append s sub f1 _ rest r1 h1
+            cases r1 with
+            | true =>
+              refine ⟨f1 + 0 + 1, true, ?_⟩
+              unfold subtypeSearch; simp only [he, if_false, hg, hc]
+              exact a1 rfl 0
+            | false =>
+              refine ⟨f1 + f2 + 1, r2, ?_⟩
+              unfold subtypeSearch; simp only [he, if_false, hg, hc]
+              exact a2 rfl f2 r2 h2
+
+theorem le_sum_of_mem (rk : Nat → Nat) (l : List Nat) (c : Nat) (h : c ∈ l) : rk c ≤ (l.map rk).sum := by
+  induction l with
+  | nil => cases h
+  | cons x r ih =>
+    simp only [List.map_cons, List.sum_cons]
+    cases h with
+    | head => omega
+    | tail _ h => have := ih h; omega
+
+/-- **On an acyclic type hierarchy `reference_type_matches` returns**: there is an amount of fuel from
+which on the walk gives an answer (and `typeMatches_spec` says which). -/
+theorem typeMatches_terminates (s : Refs) (hac : Acyclic s) (ty sub : Nat) (incl : Bool) :
+    ∃ fuel0 b, ∀ fuel, fuel0 ≤ fuel → typeMatches s fuel ty sub incl = some b := by
+  obtain ⟨rk, hrk⟩ := hac
+  unfold typeMatches
+  by_cases he : ty = sub
+  · exact ⟨0, true, fun _ _ => by simp [he]⟩
+  · cases incl with
+    | false => exact ⟨0, false, fun _ _ => by simp [he]⟩
+    | true =>
+      obtain ⟨f, r, h⟩ := subtypeSearch_terminates_ranked s sub rk hrk (rk ty + 1) [ty]
+        (by intro c hc; simp at hc; subst hc; omega)
+      refine ⟨f, r, fun fuel hf => ?_⟩
+      simp only [he, if_false, if_true]
+      obtain ⟨k, rfl⟩ := Nat.exists_eq_add_of_le hf
+      exact subtypeSearch_mono s sub f [ty] r k h
+
+theorem filterByType_terminates (s : Refs) (hac : Acyclic s) (f : Filter) (l : List (Nat × Nat)) :
+    ∃ fuel0, ∀ fuel, fuel0 ≤ fuel → ∃ out, filterByType s fuel f l = some out := by
+  cases f with
+  | none => exact ⟨0, fun fuel _ => ⟨l, filterByType_none s fuel l⟩⟩
+  | some p =>
+    obtain ⟨ty, incl⟩ := p
+    induction l with
+    | nil => exact ⟨0, fun _ _ => ⟨[], rfl⟩⟩
+    | cons x rest ih =>
+      obtain ⟨f1, h1⟩ := ih
+      obtain ⟨f2, b, h2⟩ := typeMatches_terminates s hac ty x.1 incl
+      refine ⟨f1 + f2, fun fuel hf => ?_⟩
+      obtain ⟨out, ho⟩ := h1 fuel (by omega)
+      have hb := h2 fuel (by omega)
+      unfold filterByType
+      simp only [hb, ho]
+      cases b <;> exact ⟨_, rfl⟩
+
+/-- **`find_references` with any filter, total on acyclic hierarchies**: with enough fuel the call
+returns, and its result is exactly the node's references whose type the filter admits. -/
+theorem findRefs_filtered_acyclic (s : Refs) (hac : Acyclic s) (a ty : Nat) (incl : Bool) :
+    ∃ fuel0, ∀ fuel, fuel0 ≤ fuel → ∃ r, findRefs s fuel a (some (ty, incl)) = some r ∧
+      ∀ t b, (t, b) ∈ found r ↔ (R s a t b ∧ Matches s ty incl t) := by
+  cases hg : s.fwd.get a with
+  | none =>
+    refine ⟨0, fun fuel _ => ?_⟩
+    have h : findRefs s fuel a (some (ty, incl)) = some none := by simp [findRefs, hg]
+    exact ⟨none, h, findRefs_filtered_partial s fuel a ty incl none h⟩
+  | some l =>
+    obtain ⟨f0, h0⟩ := filterByType_terminates s hac (some (ty, incl)) l
+    refine ⟨f0, fun fuel hf => ?_⟩
+    obtain ⟨out, ho⟩ := h0 fuel hf
+    have h : findRefs s fuel a (some (ty, incl)) = some (if out.isEmpty then none else some out) := by
+      simp [findRefs, hg, ho]
+    exact ⟨_, h, findRefs_filtered_partial s fuel a ty incl _ h⟩
+
+theorem findInvAux_terminates (s : Refs) (hac : Acyclic s) (b : Nat) (f : Filter) (srcs : List Nat) :
+    ∃ fuel0, ∀ fuel, fuel0 ≤ fuel → ∃ out, findInvAux s fuel b f srcs = some out := by
+  induction srcs with
+  | nil => exact ⟨0, fun _ _ => ⟨[], rfl⟩⟩
+  | cons src rest ih =>
+    obtain ⟨f1, h1⟩ := ih
+    obtain ⟨f2, h2⟩ := filterByType_terminates s hac f (backRefs s b src)
+    refine ⟨f1 + f2, fun fuel hf => ?_⟩
+    obtain ⟨y, hy⟩ := h1 fuel (by omega)
+    obtain ⟨x, hx⟩ := h2 fuel (by omega)
+    exact ⟨x ++ y, by simp [findInvAux, hx, hy]⟩
+
+/-- **`find_inverse_references` with any filter, total on acyclic hierarchies** -/
+theorem findInv_filtered_acyclic (s : Refs) (hac : Acyclic s) (hi : Inv s) (b ty : Nat) (incl : Bool) :
+    ∃ fuel0, ∀ fuel, fuel0 ≤ fuel → ∃ r, findInv s fuel b (some (ty, incl)) = some r ∧
+      ∀ t a, (t, a) ∈ found r ↔ (R s a t b ∧ Matches s ty incl t) := by
+  cases hg : s.inv.get b with
+  | none =>
+    refine ⟨0, fun fuel _ => ?_⟩
+    have h : findInv s fuel b (some (ty, incl)) = some none := by simp [findInv, hg]
+    exact ⟨none, h, findInv_filtered_partial s fuel b ty incl hi none h⟩
+  | some srcs =>
+    obtain ⟨f0, h0⟩ := findInvAux_terminates s hac b (some (ty, incl)) srcs
+    refine ⟨f0, fun fuel hf => ?_⟩
+    obtain ⟨out, ho⟩ := h0 fuel hf
+    have h : findInv s fuel b (some (ty, incl)) = some (if out.isEmpty then none else some out) := by
+      simp [findInv, hg, ho]
+    exact ⟨_, h, findInv_filtered_partial s fuel b ty incl hi _ h⟩
+
+theorem mem_fwd_of_get (m : AMap (List (Nat × Nat))) (k : Nat) (v : List (Nat × Nat))
+    (h : m.get k = some v) : (k, v) ∈ m := by
+  induction m with
+  | nil => simp [AMap.get] at h
+  | cons e r ih =>
+    obtain ⟨k', v'⟩ := e
+    unfold AMap.get at h
+    split at h
+    · rename_i hk; cases h; subst hk; exact List.mem_cons_self
+    · exact List.mem_cons_of_mem _ (ih h)
+
+/-- an executable test for `Acyclic` with a given rank -/
+def rankCheck (s : Refs) (rk : Nat → Nat) : Bool :=
+  s.fwd.all fun e => e.2.all fun r => r.1 != hasSubtype || decide (rk r.2 < rk e.1)
+
+theorem acyclic_of_rankCheck (s : Refs) (rk : Nat → Nat) (h : rankCheck s rk = true) : Acyclic s := by
+  refine ⟨rk, fun a b hr => ?_⟩
+  unfold R fwdL at hr
+  cases hg : s.fwd.get a with
+  | none => rw [hg] at hr; simp at hr
+  | some l =>
+    rw [hg] at hr
+    simp only [Option.getD_some] at hr
+    unfold rankCheck at h
+    rw [List.all_eq_true] at h
+    have h1 := h (a, l) (mem_fwd_of_get _ _ _ hg)
+    rw [List.all_eq_true] at h1
+    have h2 := h1 (hasSubtype, b) hr
+    simpa using h2
+
+/-- non-vacuity: the two-level hierarchy Aggregates ⊃ HasComponent ⊃ HasOrderedComponent is acyclic -/
+example : ∃ s, run empty [.ins 44 47 45, .ins 47 49 45, .ins 1 2 49] = some s ∧ Acyclic s :=
+  ⟨_, rfl, acyclic_of_rankCheck _ (fun n => if n = 44 then 2 else if n = 47 then 1 else 0) (by decide)⟩
+
+/-- a HasSubtype cycle is not `Acyclic` (there the real walk may not return) -/
+example : ∃ s, run empty [.ins 44 47 45, .ins 47 44 45] = some s ∧ ¬ Acyclic s := by
+  refine ⟨_, rfl, ?_⟩
+  rintro ⟨rk, h⟩
+  have h1 := h 44 47 (by decide)
+  have h2 := h 47 44 (by decide)
+  omega
+
 end OpcuaVerif.C28
